@@ -304,6 +304,7 @@ class HTTP(BaseComponent):
         path = req.path
         _path = req.uri._path
         if (path.encode(self._encoding) != _path) and (quote(path).encode(self._encoding) != _path):
+            del self._buffers[sock]
             return self.fire(redirect(req, res, [req.uri.utf8()], 301))
 
         req.body = BytesIO(parser.recv_body())
